@@ -200,21 +200,23 @@ def _unopt(t):
     return t[len("Optional[") : -1] if t.startswith("Optional[") and t.endswith("]") else t
 
 
-def other_statements(src, name):
-    """ast dumps of every top-level statement except the addressed one (the first statement that binds the
-    addressed simple name) and, for a method, of every other member of its class"""
+def other_statements(src, names):
+    """ast dumps of every top-level statement except the addressed ones (for each addressed name, the first statement
+    that binds its simple name) and, for a method, of every other member of its class"""
+    if isinstance(names, str):
+        names = [names]
     m = ast.parse(src)
-    segs = name.split(".")
     out = []
-    skipped = False
+    pending = [n.split(".") for n in names]
     for stmt in m.body:
-        if not skipped and segs[0] in members(stmt):
-            skipped = True
-            if len(segs) > 1 and isinstance(stmt, ast.ClassDef):
+        hit = next((segs for segs in pending if segs[0] in members(stmt)), None)
+        if hit is not None:
+            pending.remove(hit)
+            if len(hit) > 1 and isinstance(stmt, ast.ClassDef):
                 out.append("class %s:" % stmt.name)
                 done = False
                 for s2 in stmt.body:
-                    if not done and segs[1] in members(s2) and isinstance(s2, ast.FunctionDef):
+                    if not done and hit[1] in members(s2) and isinstance(s2, ast.FunctionDef):
                         done = True
                         continue
                     out.append("  " + ast.dump(s2))
